@@ -2218,7 +2218,11 @@ func (interp *Interpreter) cfg(root *node, sc *scope, importPath, pkgName string
 			if l == 0 {
 				// Switch is empty: its init statement and tag are still evaluated.
 				n.start = n.child[0].start
-				n.child[0].tnext = n
+				if n.kind == typeSwitch {
+					n.child[0].tnext = n
+				} else {
+					wireSwitchHeader(n, n)
+				}
 				break
 			}
 			// Chain case clauses.
@@ -2272,7 +2276,7 @@ func (interp *Interpreter) cfg(root *node, sc *scope, importPath, pkgName string
 				init.tnext = sbn.start
 				n.child[0].tnext = init.start
 			} else {
-				n.child[0].tnext = sbn.start
+				wireSwitchHeader(n, sbn.start)
 			}
 
 		case switchIfStmt: // like an if-else chain
@@ -2283,7 +2287,11 @@ func (interp *Interpreter) cfg(root *node, sc *scope, importPath, pkgName string
 			if l == 0 {
 				// Switch is empty: its init statement and tag are still evaluated.
 				n.start = n.child[0].start
-				n.child[0].tnext = n
+				if n.kind == typeSwitch {
+					n.child[0].tnext = n
+				} else {
+					wireSwitchHeader(n, n)
+				}
 				break
 			}
 			// Wire case clauses in reverse order so the next start node is already resolved when used.
@@ -2323,7 +2331,7 @@ func (interp *Interpreter) cfg(root *node, sc *scope, importPath, pkgName string
 			}
 			sbn.start = clauses[0].start
 			n.start = n.child[0].start
-			n.child[0].tnext = sbn.start
+			wireSwitchHeader(n, sbn.start)
 
 		case typeAssertExpr:
 			if len(n.child) == 1 {
@@ -2769,6 +2777,23 @@ func setFNext(cond, next *node) {
 		return
 	}
 	cond.fnext = next
+}
+
+// wireSwitchHeader chains the init statement and the tag expression of switch statement n,
+// which precede its block of clauses, then continues at next.
+func wireSwitchHeader(n, next *node) {
+	header := n.child[:len(n.child)-1]
+	if len(header) == 0 {
+		// No init statement nor tag: the block of clauses is the first child.
+		header = n.child
+	}
+	for i, c := range header {
+		if i < len(header)-1 {
+			c.tnext = header[i+1].start
+		} else {
+			c.tnext = next
+		}
+	}
 }
 
 // nextClause returns the clause following c in the source of a switch statement, or nil.
